@@ -640,3 +640,52 @@ theorem sync_mirror {fs0 : FS} {r : FPath} {ld : List (FPath × Node)} {src : FP
           · next t text => exact ⟨text, hfin, hnc.symm⟩
 
 end Rj
+
+namespace Rj
+open FS
+
+/-- after the mirror state is reached, nothing is left to delete and nothing to copy: the plan of a
+second run against the destination as it now is (any complete listing `ld'` of it) is empty -/
+theorem second_plan_empty {fs0 fs' : FS} {r : FPath} {src : FPath → Option SEntry}
+    {ls : List (FPath × SEntry)} {ld' : List (FPath × Node)}
+    (hm : ∀ p, p ≠ [] → MirrorAt fs0 fs' r p (src p))
+    (hls : ∀ p e, (p, e) ∈ ls → p ≠ [] ∧ src p = some e)
+    (hld : ∀ p n, (p, n) ∈ ld' → p ≠ [] ∧ fs'.get (r ++ p) = some n) :
+    planDel src ld' = [] ∧ planCpy (fun p => fs'.get (r ++ p)) ls = [] := by
+  constructor
+  · simp only [planDel, List.reverse_eq_nil_iff, List.filter_eq_nil_iff]
+    intro x hx
+    obtain ⟨p, n⟩ := x
+    obtain ⟨hp, hg⟩ := hld p n hx
+    have := hm p hp
+    simp only [needDel]
+    cases hs : src p with
+    | none => simp [hs, MirrorAt, hg] at this
+    | some e =>
+      rw [hs] at this
+      cases e with
+      | folder => simp only [MirrorAt, hg, Option.some.injEq] at this; subst this; simp [compatible]
+      | file b m =>
+        simp only [MirrorAt, hg, Option.some.injEq] at this
+        rcases this with h | ⟨b', -, h⟩ <;> (subst h; simp [compatible])
+      | link t =>
+        obtain ⟨text, h1, h2⟩ := this
+        rw [hg] at h1; cases h1
+        simp [compatible, h2]
+  · simp only [planCpy, List.filter_eq_nil_iff]
+    intro x hx
+    obtain ⟨p, e⟩ := x
+    obtain ⟨hp, hs⟩ := hls p e hx
+    have := hm p hp
+    rw [hs] at this
+    simp only [needCpy]
+    cases e with
+    | folder => simp only [MirrorAt] at this; simp [this, upToDate]
+    | file b m =>
+      simp only [MirrorAt] at this
+      rcases this with h | ⟨b', -, h⟩ <;> simp [h, upToDate]
+    | link t =>
+      obtain ⟨text, h1, h2⟩ := this
+      simp [h1, upToDate, h2]
+
+end Rj
